@@ -43,10 +43,11 @@ Proof. induction reqs as [|r reqs IH]; simpl; constructor; [destruct r; exact I 
 
 Section Sound.
   Variable b : bool.
+  Variable rg : option (N * N).
 
   (* editors (carried index placed only when unused) *)
   Lemma engine_sound : forall reqs used free outs,
-    engine b true reqs used free = Ok outs ->
+    engine b true rg reqs used free = Ok outs ->
     NoDup free -> (forall i, In i free -> ~ In i used) ->
     Forall2 outcome_fits reqs outs /\
     NoDup (placed_ids outs) /\
@@ -64,7 +65,9 @@ Section Sound.
         * destruct r; exact I.
         * apply unplaced_fits.
       + destruct r as [k| |].
-        * simpl in H. destruct (memN k used) eqn:Ek.
+        * cbn [andb] in H.
+          destruct (match rg with Some (lo, hi) => (k <? lo) || (hi <? k) | None => false end); [discriminate|].
+          destruct (memN k used) eqn:Ek.
           -- inv_bind H as o Ho Hk. inversion Hk; subst outs.
              destruct (IH _ _ _ Ho Hnd Hdisj) as (F & N1 & N2 & N3 & N4).
              simpl. repeat split; auto. constructor; [exact I | assumption].
@@ -129,9 +132,9 @@ Proof. unfold free_ids. apply NoDup_filter. apply range_from_nodup. Qed.
 Definition is_carry (r : request) : bool := match r with RCarry _ => true | _ => false end.
 
 (* a run over requests without carried indices hands out the free list front to back *)
-Lemma engine_no_carry_fresh b c : forall reqs used free outs,
+Lemma engine_no_carry_fresh b c rg : forall reqs used free outs,
   forallb (fun r => negb (is_carry r)) reqs = true ->
-  engine b c reqs used free = Ok outs ->
+  engine b c rg reqs used free = Ok outs ->
   exists n, fresh_ids reqs outs = firstn n free.
 Proof.
   induction reqs as [|r rest IH]; intros used free outs Hnc H.
@@ -181,27 +184,28 @@ Qed.
 (* running the engine over distinct, unused carried indices: all are placed; free loses exactly them *)
 Lemma engine_carried_prefix : forall ks rest used free,
   NoDup ks -> (forall k, In k ks -> ~ In k used) ->
-  engine false true (map RCarry ks ++ rest) used free =
-  (do o <- engine false true rest (rev ks ++ used) (remove_all ks free); Ok (map Placed ks ++ o)).
+  engine false true None (map RCarry ks ++ rest) used free =
+  (do o <- engine false true None rest (rev ks ++ used) (remove_all ks free); Ok (map Placed ks ++ o)).
 Proof.
   induction ks as [|k ks IH]; intros rest used free Hnd Hun.
-  - simpl. destruct (engine false true rest used free); reflexivity.
+  - simpl. destruct (engine false true None rest used free); reflexivity.
   - inversion Hnd as [|? ? Hk Hnd']; subst. cbn [map app engine]. simpl.
     assert (memN k used = false) as -> by (apply memN_false; apply Hun; left; reflexivity).
     rewrite IH; auto.
     + simpl. rewrite <- app_assoc. simpl.
-      destruct (engine false true rest (rev ks ++ k :: used) (remove_all ks (removeN k free))); reflexivity.
+      destruct (engine false true None rest (rev ks ++ k :: used) (remove_all ks (removeN k free))); reflexivity.
     + intros k' Hk' [<-|Hu]; [contradiction | eapply Hun; [right; exact Hk' | exact Hu]].
 Qed.
 
 (* membership-equivalent "used" lists give the same run *)
-Lemma engine_used_ext b c : forall reqs used used' free,
-  (forall x, In x used <-> In x used') -> engine b c reqs used free = engine b c reqs used' free.
+Lemma engine_used_ext b c rg : forall reqs used used' free,
+  (forall x, In x used <-> In x used') -> engine b c rg reqs used free = engine b c rg reqs used' free.
 Proof.
   induction reqs as [|r rest IH]; intros used used' free Heq; [reflexivity|].
   cbn [engine]. destruct (b && match free with [] => true | _ :: _ => false end); [reflexivity|].
   destruct r as [k| |].
-  - assert (memN k used = memN k used') as ->.
+  - destruct (match rg with Some (lo, hi) => (k <? lo) || (hi <? k) | None => false end); [reflexivity|].
+    assert (memN k used = memN k used') as ->.
     { destruct (memN k used') eqn:E; [apply memN_in; apply Heq; apply memN_in; assumption|].
       apply memN_false. apply memN_false in E. intros H. apply E. apply Heq. assumption. }
     destruct (c && memN k used').
@@ -222,8 +226,8 @@ Definition count_fresh (reqs : list request) : nat :=
 Theorem raise_mode_order_independent ks ks' n rest rest' used free :
   Permutation ks ks' -> NoDup ks -> (forall k, In k ks -> ~ In k used) ->
   rest = repeat RFresh n -> rest' = repeat RFresh n ->
-  match engine false true (map RCarry ks ++ rest) used free,
-        engine false true (map RCarry ks' ++ rest') used free with
+  match engine false true None (map RCarry ks ++ rest) used free,
+        engine false true None (map RCarry ks' ++ rest') used free with
   | Ok o, Ok o' =>
       fresh_ids (map RCarry ks ++ rest) o = fresh_ids (map RCarry ks' ++ rest') o' /\
       Permutation (placed_ids o) (placed_ids o')
@@ -238,10 +242,10 @@ Proof.
   rewrite (engine_carried_prefix ks) by auto.
   rewrite (engine_carried_prefix ks') by auto.
   rewrite (remove_all_perm ks ks' free P).
-  rewrite (engine_used_ext false true (repeat RFresh n) (rev ks ++ used) (rev ks' ++ used)).
+  rewrite (engine_used_ext false true None (repeat RFresh n) (rev ks ++ used) (rev ks' ++ used)).
   2:{ intros x. rewrite !in_app_iff, <- !in_rev. split; intros [H|H]; auto; left;
       [eapply Permutation_in; eauto | eapply Permutation_in; [apply Permutation_sym; eauto | assumption]]. }
-  destruct (engine false true (repeat RFresh n) (rev ks' ++ used) (remove_all ks' free)) as [o|e]; simpl; [|exact I].
+  destruct (engine false true None (repeat RFresh n) (rev ks' ++ used) (remove_all ks' free)) as [o|e]; simpl; [|exact I].
   split.
   - assert (forall l (o0 : list outcome) r, fresh_ids (map RCarry l ++ r) (map Placed l ++ o0) = fresh_ids r o0) as F
       by (induction l as [|x l IHl]; intros; simpl; auto).
@@ -252,8 +256,8 @@ Proof.
 Qed.
 
 (* ---- fresh ids are sound in every mode (also for the SWNM rebuilder, whose carried indices always win) *)
-Lemma engine_fresh_sound b c : forall reqs used free outs,
-  engine b c reqs used free = Ok outs -> NoDup free ->
+Lemma engine_fresh_sound b c rg : forall reqs used free outs,
+  engine b c rg reqs used free = Ok outs -> NoDup free ->
   (forall i, In i (fresh_ids reqs outs) -> In i free) /\ NoDup (fresh_ids reqs outs).
 Proof.
   induction reqs as [|r rest IH]; intros used free outs H Hnd.
@@ -264,7 +268,8 @@ Proof.
         with (map (fun _ : request => Unplaced) (r :: rest)).
       rewrite unplaced_fresh. split; [intros i [] | constructor].
     + destruct r as [k| |].
-      * destruct (c && memN k used).
+      * destruct (match rg with Some (lo, hi) => (k <? lo) || (hi <? k) | None => false end); [discriminate|].
+        destruct (c && memN k used).
         -- inv_bind H as o Ho Hk. inversion Hk; subst outs. simpl. eapply IH; eauto.
         -- inv_bind H as o Ho Hk. inversion Hk; subst outs. simpl.
            destruct (IH _ _ _ Ho (removeN_nodup k free Hnd)) as [A B]. split; [|assumption].
@@ -285,12 +290,13 @@ Lemma count_fresh_cons r rest :
   count_fresh (r :: rest) = ((match r with RFresh => 1 | _ => 0 end) + count_fresh rest)%nat.
 Proof. unfold count_fresh. destruct r; reflexivity. Qed.
 
-Lemma engine_exhausted c : forall reqs used free,
-  (length free < count_fresh reqs)%nat -> exists e, engine false c reqs used free = Raise e.
+Lemma engine_exhausted c rg : forall reqs used free,
+  (length free < count_fresh reqs)%nat -> exists e, engine false c rg reqs used free = Raise e.
 Proof.
   induction reqs as [|r rest IH]; intros used free Hlt; [unfold count_fresh in Hlt; simpl in Hlt; lia|].
   rewrite count_fresh_cons in Hlt. cbn [engine]. simpl. destruct r as [k| |].
-  - destruct (c && memN k used).
+  - destruct (match rg with Some (lo, hi) => (k <? lo) || (hi <? k) | None => false end); [eauto|].
+    destruct (c && memN k used).
     + destruct (IH used free) as [e ->]; [lia | simpl; eauto].
     + destruct (IH (k :: used) (removeN k free)) as [e ->];
         [pose proof (removeN_length k free); lia | simpl; eauto].
@@ -300,14 +306,17 @@ Proof.
 Qed.
 
 (* nothing fresh to place => never blocked, however full the table is *)
-Lemma engine_no_fresh_ok b c : forall reqs used free,
-  count_fresh reqs = 0%nat -> exists outs, engine b c reqs used free = Ok outs.
+Lemma engine_no_fresh_ok b c rg : forall reqs used free,
+  (forall k, In (RCarry k) reqs -> match rg with Some (lo, hi) => (k <? lo) || (hi <? k) | None => false end = false) ->
+  count_fresh reqs = 0%nat -> exists outs, engine b c rg reqs used free = Ok outs.
 Proof.
-  induction reqs as [|r rest IH]; intros used free H0; [simpl; eauto|].
+  induction reqs as [|r rest IH]; intros used free Hrg H0; [simpl; eauto|].
+  assert (forall k, In (RCarry k) rest -> match rg with Some (lo, hi) => (k <? lo) || (hi <? k) | None => false end = false) as Hrg'
+    by (intros k Hk; apply Hrg; right; assumption).
   cbn [engine]. destruct (b && match free with [] => true | _ :: _ => false end); [eauto|].
   rewrite count_fresh_cons in H0. destruct r as [k| |]; simpl in H0; try discriminate.
-  - destruct (c && memN k used).
-    + destruct (IH used free H0) as [o ->]. simpl. eauto.
-    + destruct (IH (k :: used) (removeN k free) H0) as [o ->]. simpl. eauto.
-  - destruct (IH used free H0) as [o ->]. simpl. eauto.
+  - rewrite (Hrg k (or_introl eq_refl)). destruct (c && memN k used).
+    + destruct (IH used free Hrg' H0) as [o ->]. simpl. eauto.
+    + destruct (IH (k :: used) (removeN k free) Hrg' H0) as [o ->]. simpl. eauto.
+  - destruct (IH used free Hrg' H0) as [o ->]. simpl. eauto.
 Qed.
